@@ -31,7 +31,7 @@ Lemma hdr_read_HB : forall w cont c k i tail n log,
   HB w cont c k -> io_stream i = skipn (Z.to_nat k) (hdr_of cont c) ++ tail ->
   sched_live (io_sched i) = true -> 0 < n -> k + n <= zlen (hdr_of cont c) ->
   (exists i' log', hdr_read true w i n log = HRPending i' log' /\ io_stream i' = io_stream i /\
-     sched_live (io_sched i') = true) \/
+     sched_live (io_sched i') = true /\ avail_head i = false) \/
   (exists m b i' log', 0 < m <= n /\ buf_write (w_buf w) k (firstn (Z.to_nat m) (skipn (Z.to_nat k) (hdr_of cont c))) = Some b /\
      hdr_read true w i n log = HRGot (set_hd (set_buf w b) (hd_set_nread (w_hd w) (k + m))) i' log' /\
      HB (set_hd (set_buf w b) (hd_set_nread (w_hd w) (k + m))) cont c (k + m) /\
@@ -41,10 +41,13 @@ Proof.
   destruct HBw as (Hbuf & Hnr & Hkr & Hpre & Hca & Hrl & Hco).
   pose proof (hlen_of_range (zlen (cf_wire cont c))) as Hhl. rewrite <- hdr_of_len in Hhl.
   assert (to_u64 n = n) as Hu by (apply to_u64_id; unfold two64; lia).
-  destruct (reader_live n i Hl Hn) as (r & i' & tag & Hr & Hl' & Hcase).
+  destruct (reader_live n i Hl Hn) as (r & i' & tag & Hr & Hl' & _ & Hcase).
   unfold hdr_read. rewrite Hu, Hr.
-  destruct Hcase as [[-> Hs'] | (m & Hm0 & Hmn & Hms & -> & Hs')].
-  - left. do 2 eexists. split; [reflexivity|]. split; assumption.
+  destruct Hcase as [(-> & Hs' & Hav) | (m & Hm0 & Hmn & Hms & -> & Hs')].
+  - left. do 2 eexists. split; [reflexivity|]. split; [assumption|]. split; [assumption|].
+    destruct (avail_head i) eqn:Ea; [|reflexivity]. exfalso. specialize (Hav eq_refl). rewrite Hs in Hav.
+    assert (zlen (skipn (Z.to_nat k) (hdr_of cont c) ++ tail) = 0) as Hz by (rewrite Hav; reflexivity).
+    rewrite zlen_app, zlen_skipn in Hz by lia. pose proof (zlen_nonneg _ tail). lia.
   - right.
     assert (zlen (skipn (Z.to_nat k) (hdr_of cont c)) = zlen (hdr_of cont c) - k) as Hsk by (apply zlen_skipn; lia).
     assert (firstn (Z.to_nat m) (io_stream i) = firstn (Z.to_nat m) (skipn (Z.to_nat k) (hdr_of cont c))) as Hd.
@@ -185,10 +188,14 @@ Proof.
 Qed.
 
 (* ---------------- outcome of the header phase ---------------- *)
-Definition hdr_outcome (r : hres) (cont : option bool) (c : cframe) (k : Z) (tail : list Z) : Prop :=
+Definition hdr_stall (i0 : io) (cont : option bool) (c : cframe) (k k' : Z) : Prop :=
+  k' = k -> avail_head i0 = false \/ (zlen (cf_wire cont c) < 126 /\ k < 6).
+
+Definition hdr_outcome (r : hres) (cont : option bool) (c : cframe) (k : Z) (i0 : io) (tail : list Z) : Prop :=
   (exists w' i' log' k', r = h_pending w' i' log' /\ HB w' cont c k' /\
      k <= k' < hlen_of (zlen (cf_wire cont c)) /\
-     io_stream i' = skipn (Z.to_nat k') (hdr_of cont c) ++ tail /\ sched_live (io_sched i') = true) \/
+     io_stream i' = skipn (Z.to_nat k') (hdr_of cont c) ++ tail /\ sched_live (io_sched i') = true /\
+     hdr_stall i0 cont c k k') \/
   (exists w' i' log', r = HRet ST_DATA_NEEDED (-1) None 0 w' i' log' /\ PS w' cont c 0 /\ w_readlen w' = 0 /\
      io_stream i' = tail /\ sched_live (io_sched i') = true).
 
@@ -210,7 +217,7 @@ Lemma hdr_after_ok : forall w cont c cs k i tail log,
   w_contop w = cf_contmid cont c ->
   conv_valid cont (c :: cs) = true ->
   io_stream i = skipn (Z.to_nat k) (hdr_of cont c) ++ tail -> sched_live (io_sched i) = true ->
-  hdr_outcome (hdr_after true (128 + lb_of (zlen (cf_wire cont c))) w i log) cont c k tail.
+  hdr_outcome (hdr_after true (128 + lb_of (zlen (cf_wire cont c))) w i log) cont c k i tail.
 Proof.
   intros w cont c cs k i tail log HBw Hk2 Hkl Fo Ff Fc Hv Hs Hl.
   pose proof (cf_wire_len _ _ _ Hv) as HL. set (L := zlen (cf_wire cont c)) in *.
@@ -235,7 +242,8 @@ Proof.
       split; [exact P1|]. split; [exact P2|]. split; [|assumption].
       rewrite Hs. pose proof (skipn_all_hdr cont c tail) as E. unfold hlen_of in E. fold L in E. rewrite E1 in E. exact E.
     + left. rewrite (Fin1 ltac:(lia)). exists w3, i, log, k. split; [reflexivity|]. split; [exact HB3|].
-      unfold hlen_of; fold L; rewrite E1. split; [lia|]. split; assumption.
+      unfold hlen_of; fold L; rewrite E1. split; [lia|]. split; [assumption|]. split; [assumption|].
+      intros _. right. apply Z.ltb_lt in E1. fold L. lia.
   - (* extended header: second read *)
     destruct Hkl as [Hkl|Hkl]; [lia|].
     assert (((if L <? 65536 then 126 else 127) =? 126) || ((if L <? 65536 then 126 else 127) =? 127) = true) as EE
@@ -248,9 +256,10 @@ Proof.
     assert (zlen (hdr_of cont c) = hl) as Hhl.
     { rewrite hdr_of_len. unfold hlen_of. fold L. rewrite E1. reflexivity. }
     destruct (hdr_read_HB w3 cont c k i tail (hl - k) log HB3 Hs Hl ltac:(lia) ltac:(lia))
-      as [(i' & log' & Hr & Hs' & Hl') | (m & b & i' & log' & Hm & Hb & Hr & HB4 & Hs' & Hl')].
+      as [(i' & log' & Hr & Hs' & Hl' & Hav) | (m & b & i' & log' & Hm & Hb & Hr & HB4 & Hs' & Hl')].
     + rewrite Hr. left. exists w3, i', log', k. split; [reflexivity|]. split; [exact HB3|].
-      unfold hlen_of; fold L; rewrite E1; fold hl. split; [lia|]. split; [rewrite Hs'; exact Hs|exact Hl'].
+      unfold hlen_of; fold L; rewrite E1; fold hl. split; [lia|]. split; [rewrite Hs'; exact Hs|]. split; [exact Hl'|].
+      intros _. left. exact Hav.
     + rewrite Hr. set (w4 := set_hd (set_buf w3 b) (hd_set_nread (w_hd w3) (k + m))) in *.
       assert (HF w4 cont c) as HF4 by exact HF3.
       destruct (hdr_finish_ok w4 cont c (k + m) i' log' HB4 HF4 HL) as [G1 G2]. fold L in G1, G2.
@@ -262,13 +271,15 @@ Proof.
         split; [exact P1|]. split; [exact P2|]. split; [|assumption].
         rewrite Hs', K. pose proof (skipn_all_hdr cont c tail) as E. unfold hlen_of in E. fold L in E. rewrite E1 in E. exact E.
       * left. rewrite (G1 ltac:(lia)). exists w4, i', log', (k + m). split; [reflexivity|]. split; [exact HB4|].
-        unfold hlen_of; fold L; rewrite E1; fold hl. split; [lia|]. split; assumption.
+        unfold hlen_of; fold L; rewrite E1; fold hl. split; [lia|]. split; [assumption|]. split; [assumption|].
+        intro Hc. lia.
 Qed.
 
-Lemma hdr_outcome_weaken : forall r cont c k k0 tail, k0 <= k -> hdr_outcome r cont c k tail -> hdr_outcome r cont c k0 tail.
+Lemma hdr_outcome_weaken : forall r cont c k k0 i1 i0 tail, k0 < k -> hdr_outcome r cont c k i1 tail -> hdr_outcome r cont c k0 i0 tail.
 Proof.
-  intros r cont c k k0 tail Hk [(w' & i' & log' & k' & H1 & H2 & H3 & H4 & H5) | H].
-  - left. exists w', i', log', k'. split; [exact H1|]. split; [exact H2|]. split; [lia|]. split; assumption.
+  intros r cont c k k0 i1 i0 tail Hk [(w' & i' & log' & k' & H1 & H2 & H3 & H4 & H5 & H6) | H].
+  - left. exists w', i', log', k'. split; [exact H1|]. split; [exact H2|]. split; [lia|]. split; [assumption|]. split; [assumption|].
+    intro Hc. lia.
   - right. exact H.
 Qed.
 
@@ -280,7 +291,7 @@ Lemma hdr_parse_ok : forall w cont c cs k i tail log,
   (zlen (cf_wire cont c) < 126 \/ k < hlen_of (zlen (cf_wire cont c))) ->
   conv_valid cont (c :: cs) = true ->
   io_stream i = skipn (Z.to_nat k) (hdr_of cont c) ++ tail -> sched_live (io_sched i) = true ->
-  hdr_outcome (hdr_parse true w i log) cont c k tail.
+  hdr_outcome (hdr_parse true w i log) cont c k i tail.
 Proof.
   intros w cont c cs k i tail log HBw Hk2 Hkl Hv Hs Hl.
   pose proof HBw as (Hbuf & Hnr & Hkr & Hpre & Hca & Hrl & Hco).
@@ -316,7 +327,7 @@ Lemma read_header_ok : forall w cont c cs k i tail,
   HB w cont c k -> k < hlen_of (zlen (cf_wire cont c)) ->
   conv_valid cont (c :: cs) = true ->
   io_stream i = skipn (Z.to_nat k) (hdr_of cont c) ++ tail -> sched_live (io_sched i) = true ->
-  hdr_outcome (read_header true w i) cont c k tail.
+  hdr_outcome (read_header true w i) cont c k i tail.
 Proof.
   intros w cont c cs k i tail HBw Hk Hv Hs Hl.
   pose proof HBw as (Hbuf & Hnr & Hkr & Hpre & Hca & Hrl & Hco).
@@ -327,14 +338,59 @@ Proof.
     destruct (k <? 2) eqn:E2; [lia|].
     apply (hdr_parse_ok w cont c cs k i tail []); try assumption; lia.
   - destruct (hdr_read_HB w cont c k i tail (6 - k) [] HBw Hs Hl ltac:(lia) ltac:(rewrite hdr_of_len; lia))
-      as [(i' & log' & Hr & Hs' & Hl') | (m & b & i' & log' & Hm & Hb & Hr & HB1 & Hs' & Hl')].
+      as [(i' & log' & Hr & Hs' & Hl' & Hav) | (m & b & i' & log' & Hm & Hb & Hr & HB1 & Hs' & Hl')].
     + rewrite Hr. left. exists w, i', log', k. split; [reflexivity|]. split; [exact HBw|].
-      split; [lia|]. split; [rewrite Hs'; exact Hs|exact Hl'].
+      split; [lia|]. split; [rewrite Hs'; exact Hs|]. split; [exact Hl'|]. intros _. left. exact Hav.
     + rewrite Hr. cbn [w_hd set_hd hd_set_nread h_nread].
       destruct (k + m <? 2) eqn:E2.
-      * left. do 4 eexists. split; [reflexivity|]. split; [exact HB1|]. split; [lia|]. split; assumption.
-      * apply (hdr_outcome_weaken _ _ _ (k + m)); [lia|].
+      * left. do 4 eexists. split; [reflexivity|]. split; [exact HB1|]. split; [lia|]. split; [assumption|]. split; [assumption|].
+        intro Hc. lia.
+      * apply (hdr_outcome_weaken _ _ _ (k + m) k i'); [lia|].
         apply (hdr_parse_ok _ cont c cs (k + m) i' tail log'); try assumption; try lia.
         unfold hlen_of in *. destruct (zlen (cf_wire cont c) <? 126) eqn:E3; [left; lia|].
         right. destruct (zlen (cf_wire cont c) <? 65536); lia.
+Qed.
+
+(* a header call that leaves nRead unchanged had nothing to read although it asked *)
+Lemma read_header_stall : forall w cont c cs k i tail,
+  HB w cont c k -> k < hlen_of (zlen (cf_wire cont c)) ->
+  conv_valid cont (c :: cs) = true ->
+  io_stream i = skipn (Z.to_nat k) (hdr_of cont c) ++ tail -> sched_live (io_sched i) = true ->
+  match read_header true w i with
+  | HFault => True
+  | HRet s _ _ _ w' _ _ => s = ST_HEADER_PENDING -> h_nread (w_hd w') = k -> avail_head i = false
+  end.
+Proof.
+  intros w cont c cs k i tail HBw Hk Hv Hs Hl.
+  pose proof HBw as (Hbuf & Hnr & Hkr & Hpre & Hca & Hrl & Hco).
+  pose proof (hlen_of_range (zlen (cf_wire cont c))) as Hhl.
+  assert (forall r k1 i1, hdr_outcome r cont c k1 i1 tail ->
+            match r with HFault => True | HRet s _ _ _ w' _ _ =>
+              s = ST_HEADER_PENDING -> h_nread (w_hd w') = k1 -> avail_head i1 = false \/ k1 < 6 end) as Hout.
+  { intros r k1 i1 [(w' & i' & log' & k' & E & HB' & Hk' & _ & _ & Hst) | (w' & i' & log' & E & _)]; subst r.
+    - unfold h_pending. intros _ Hn. destruct HB' as (_ & Hn' & _). rewrite Hn' in Hn.
+      destruct (Hst Hn) as [H|[_ H]]; [left; assumption|right; assumption].
+    - intro Hc. discriminate Hc. }
+  unfold read_header. rewrite Hnr. unfold HL_SHORT.
+  destruct (6 - k <=? 0) eqn:E; cbn [andb].
+  - destruct (k <? 2) eqn:E2; [lia|].
+    pose proof (hdr_parse_ok w cont c cs k i tail [] HBw ltac:(lia) ltac:(right; lia) Hv Hs Hl) as Ho.
+    specialize (Hout _ _ _ Ho). destruct (hdr_parse true w i []); [exact I|].
+    intros H1 H2. destruct (Hout H1 H2) as [H|H]; [assumption|lia].
+  - destruct (hdr_read_HB w cont c k i tail (6 - k) [] HBw Hs Hl ltac:(lia) ltac:(rewrite hdr_of_len; lia))
+      as [(i' & log' & Hr & Hs' & Hl' & Hav) | (m & b & i' & log' & Hm & Hb & Hr & HB1 & Hs' & Hl')].
+    + rewrite Hr. unfold h_pending. intros _ _. exact Hav.
+    + rewrite Hr. cbn [w_hd set_hd hd_set_nread h_nread].
+      destruct (k + m <? 2) eqn:E2.
+      * unfold h_pending. cbn [w_hd set_hd hd_set_nread h_nread]. intros _ Hc. lia.
+      * assert (zlen (cf_wire cont c) < 126 \/ k + m < hlen_of (zlen (cf_wire cont c))) as Hcond.
+        { unfold hlen_of in *. destruct (zlen (cf_wire cont c) <? 126) eqn:E3; [left; lia|].
+          right. destruct (zlen (cf_wire cont c) <? 65536); lia. }
+        pose proof (hdr_parse_ok _ cont c cs (k + m) i' tail log' HB1 ltac:(lia) Hcond Hv Hs' Hl') as Ho.
+        assert (forall r, hdr_outcome r cont c (k + m) i' tail ->
+                  match r with HFault => True | HRet s _ _ _ w' _ _ => s = ST_HEADER_PENDING -> h_nread (w_hd w') = k -> False end) as Hge.
+        { intros r [(w' & i'' & log'' & k' & E' & HB' & Hk' & _) | (w' & i'' & log'' & E' & _)]; subst r.
+          - unfold h_pending. intros _ Hn. destruct HB' as (_ & Hn' & _). lia.
+          - intro Hc. discriminate Hc. }
+        specialize (Hge _ Ho). destruct (hdr_parse true _ i' log'); [exact I|]. intros H1 H2. exfalso. exact (Hge H1 H2).
 Qed.
